@@ -259,6 +259,8 @@ def check_key(ctx, curve, dom, d, named, lzhint=None):
         "lines_of_4": head + b"\n" + b"\n".join(b64[i:i + 4] for i in range(0, len(b64), 4)) + b"\n" + tail, "trailing_spaces": R.pem(blob0, "EC PRIVATE KEY").replace(b"\n", b"  \t\n"),
         "leading_spaces": R.pem(blob0, "EC PRIVATE KEY").replace(b"\n", b"\n  "), "blank_lines": R.pem(blob0, "EC PRIVATE KEY").replace(b"\n", b"\n\n"),
         "mixed_eol": R.pem(blob0, "EC PRIVATE KEY").replace(b"\n", b"\r\n", 2), "no_final_newline": R.pem(blob0, "EC PRIVATE KEY").rstrip(b"\n"),
+        "ws_only_lines": R.pem(blob0, "EC PRIVATE KEY").replace(b"\n", b"\n   \n", 2), "tab_only_line": R.pem(blob0, "EC PRIVATE KEY").replace(b"\n", b"\n\t\n", 1),
+        "crlf_with_blank_lines": R.pem(blob0, "EC PRIVATE KEY", b"\r\n").replace(b"\r\n", b"\r\n\r\n"), "trailing_ws_line": R.pem(blob0, "EC PRIVATE KEY") + b"   \n",
         "bom": b"\xef\xbb\xbf" + R.pem(blob0, "EC PRIVATE KEY"), "text_before_and_after": b"Bag Attributes\n    friendlyName: x\n" + R.pem(blob0, "EC PRIVATE KEY") + b"trailer\n",
         "two_keys": R.pem(blob0, "EC PRIVATE KEY") + R.pem(R.ec_private_key((d % (n - 1) + 1).to_bytes(Ln, "big"), oid, None), "EC PRIVATE KEY"),
         "lower_case_label": R.pem(blob0, "EC PRIVATE KEY").replace(b"EC PRIVATE KEY", b"ec private key"), "five_dashes_more": R.pem(blob0, "EC PRIVATE KEY").replace(b"-----", b"------"),
